@@ -2,6 +2,7 @@ import Proofs.OSet
 import Proofs.OSetPtr
 import Proofs.OSetReplace
 import Proofs.OSetShape
+import Proofs.OSetShapeMore
 
 /-!
   C17 — Ordered sets behave as insertion-ordered mathematical sets.
@@ -230,6 +231,89 @@ example : iToList { startField := 1, stepField := 2 } (iGuarded addProg 7 (iGuar
     iToList iterShape (iGuarded { addProg with whenPresent := true } 7 Pyx.OSetPtr.empty) = [] ∧
     iToList iterShape (iGuarded { addProg with body := [ .bind .curr (.field .endV 1),
         .allocInto (.var .curr) (.var .endV) [(.field .endV 1), .mapAtKey] ] } 7 Pyx.OSetPtr.empty) = [] := by decide
+
+/-- SOURCE TIE, reverse iteration that discards the visited element, for EVERY predicate, fuel, store and cell: the model's
+    `reversedRem` is the generic generator-with-consumer loop on the `__reversed__` shape and the `discard` program generated
+    from the source now (the forward loop is the last conjunct of `ordered_set_cells_as_in_source`) -/
+theorem ordered_set_reverse_removal_as_in_source (p : Nat → Bool) (f : Nat) (s : Store) (curr : Nat) :
+    reversedRem p f s curr = iIterRem reversedShape discardProg p f s curr := reversedRem_eq p f s curr
+
+/-- SOURCE TIE, the whole op language of the pointer-level model, for EVERY op, store and op sequence: `applyP` (add, discard,
+    forward / reverse iteration discarding the visited elements of a list) and `runP` (any sequence from the empty set, i.e.
+    every reachable store of `ptr_reachable`) are the generic interpretation of the two programs and two walk shapes generated
+    from the source now -/
+theorem ordered_set_ops_as_in_source (op : POp) (s : Store) (ops : List POp) :
+    applyP op s = iApplyP addProg discardProg iterShape reversedShape op s ∧
+    runP ops = iRunP addProg discardProg iterShape reversedShape ops := ⟨applyP_eq op s, runP_eq ops⟩
+
+/-- SOURCE TIE, the two ends (`next(iter(s), None)` / `QuerySet.first`, `next(reversed(s), None)` / `QuerySet.last`): the
+    model's `ptrFirst` / `ptrLast` are the first key the generic walk of the generated `__iter__` / `__reversed__` shape yields.
+    Hypothesis: the allocator is not 0 (the walk's fuel; it is 1 in the empty set and only grows) -/
+theorem ordered_set_ends_as_in_source (s : Store) (h : 0 < s.fresh) :
+    ptrFirst s = iFirst iterShape s ∧ ptrLast s = iFirst reversedShape s := ⟨ptrFirst_eq s h, ptrLast_eq s h⟩
+
+/-- … the hypothesis holds in every represented, hence every reachable, store -/
+theorem ordered_set_ends_as_in_source_reachable (ops : List POp) :
+    ptrFirst (runP ops) = iFirst iterShape (runP ops) ∧ ptrLast (runP ops) = iFirst reversedShape (runP ops) := by
+  obtain ⟨as, ha⟩ := (PyxProps.C17.ptr_reachable ops).1
+  exact ordered_set_ends_as_in_source _ (by have := ha.len; omega)
+
+/-- SOURCE TIE, `pop(last=True / False)`: in every represented store the list-level model's `popLast` / `popFirst` is what the
+    cell-level `pop` does (`iPop`, Proofs/OSetShapeMore.lean: KeyError on the empty set, else the key is read off the sentinel's
+    `prev` / `next` cell and the GENERATED `discard` program is run on it): KeyError exactly together, and otherwise the same
+    key is returned and the store left behind represents the list the model returns (its forward walk IS that list) -/
+theorem pop_as_in_source (s : Store) (L : List Nat) (h : Repr s L) (last : Bool) :
+    let popL := if last then Pyx.OSet.popLast L else Pyx.OSet.popFirst L
+    (popL = none → iPop discardProg last s = none) ∧
+    (∀ k L', popL = some (k, L') →
+      ∃ s', iPop discardProg last s = some (k, s') ∧ s' = iGuarded discardProg k s ∧ Repr s' L' ∧ toList s' = L') := by
+  obtain ⟨h0, h1⟩ := iPop_refines s L h last
+  have key : ∀ (o : Option Nat), (if last then L.getLast? else L.head?) = o →
+      (if last then Pyx.OSet.popLast L else Pyx.OSet.popFirst L) = o.map (fun k => (k, Pyx.OSet.discard k L)) := by
+    intro o ho
+    cases last with
+    | true => simp only [↓reduceIte] at ho ⊢; unfold Pyx.OSet.popLast; rw [ho]; cases o <;> rfl
+    | false => simp only [Bool.false_eq_true, ↓reduceIte] at ho ⊢; unfold Pyx.OSet.popFirst; rw [ho]; cases o <;> rfl
+  intro popL
+  cases ho : (if last then L.getLast? else L.head?) with
+  | none =>
+    have hL : L = [] := by
+      cases last with
+      | true => simpa using ho
+      | false => simpa using ho
+    refine ⟨fun _ => h0 hL, fun k L' hp => ?_⟩
+    have := key none ho
+    simp only [popL, this, Option.map_none] at hp
+    exact absurd hp (by simp)
+  | some k0 =>
+    have hk := key (some k0) ho
+    obtain ⟨hp0, hr⟩ := h1 k0 ho
+    refine ⟨fun hn => ?_, fun k L' hp => ?_⟩
+    · simp only [popL, hk, Option.map_some] at hn
+      exact absurd hn (by simp)
+    · simp only [popL, hk, Option.map_some, Option.some.injEq, Prod.mk.injEq] at hp
+      obtain ⟨rfl, rfl⟩ := hp
+      obtain ⟨as, ha⟩ := hr
+      exact ⟨_, hp0, discard_eq k0 s, ⟨as, ha⟩, (Pyx.OSetPtr.reprA_toList ha).1⟩
+
+/-! non-vacuity: `pop()` / `pop(last=False)` on the set 9, 8, 7 built by the generated `add` program return 7 / 9 and leave 9, 8 /
+    8, 7; on the empty set both are KeyError; a `discard` program without its second pointer write leaves the popped key
+    reachable backwards; the ends of that set are 9 and 7, read by the generic walks -/
+example :
+    let s := iRunP addProg discardProg iterShape reversedShape [.add 9, .add 8, .add 7]
+    (iPop discardProg true s).map (fun r => (r.1, iToList iterShape r.2, iToList reversedShape r.2)) = some (7, [9, 8], [8, 9]) ∧
+    (iPop discardProg false s).map (fun r => (r.1, iToList iterShape r.2, iToList reversedShape r.2)) = some (9, [8, 7], [7, 8]) ∧
+    (iPop discardProg true Pyx.OSetPtr.empty).isNone = true ∧ (iPop discardProg false Pyx.OSetPtr.empty).isNone = true ∧
+    (iPop { discardProg with body := discardProg.body.take 2 } true s).map (fun r => (r.1, iToList reversedShape r.2)) =
+      some (7, [7, 8, 9]) ∧
+    iFirst iterShape s = some 9 ∧ iFirst reversedShape s = some 7 ∧ Pyx.OSet.popLast [9, 8, 7] = some (7, [9, 8]) := by decide
+/-- the op language: reverse iteration removing 8 and 7, then re-adding 8; with a `__reversed__` that stepped along field 2 only the
+    last element would be visited (and removed); with a `discard` guarded the wrong way round nothing is removed -/
+example : iToList iterShape (iRunP addProg discardProg iterShape reversedShape [.add 9, .add 8, .add 7, .riterRm [8, 7], .add 8]) = [9, 8] ∧
+    iToList iterShape (iRunP addProg discardProg iterShape reversedShape [.add 9, .add 8, .add 7, .riterRm [8, 7]]) = [9] ∧
+    iToList iterShape (iRunP addProg discardProg iterShape { startField := 1, stepField := 2 } [.add 9, .add 8, .add 7, .riterRm [8, 7]]) = [9, 8] ∧
+    iToList iterShape (iRunP addProg { discardProg with whenPresent := false } iterShape reversedShape [.add 9, .add 8, .riterRm [8]]) = [9, 8] := by
+  decide
 
 end PyxProps.C17
 
